@@ -89,15 +89,25 @@ def confirm(sid, wt):
     print(sid, json.dumps(ran)[:600])
 
 
-def table():
+def table(md=False):
     rows = []
     for sid in sorted(os.listdir(os.path.join(HERE, "seeded"))):
         m = os.path.join(HERE, "seeded", sid, "meta.json")
         if os.path.exists(m):
             meta = json.load(open(m))
-            rows.append((sid, meta["property"], meta.get("detected_by", {}), meta.get("summary", "")[:90]))
-    for r in rows:
-        print("%-28s %-4s %-40s %s" % (r[0], r[1], ",".join("%s:%s" % (k, "yes" if v else "NO") for k, v in sorted(r[2].items())), r[3]))
+            ran = meta.get("ran", {})
+            rows.append((sid, meta["property"], meta.get("summary", ""), meta.get("needs_to_manifest", ""), ran.get("suite_with_change", "")[:10],
+                         "yes" if meta.get("confirmed") else "NO", ", ".join(ran.get("check_clauses", []) or ran.get("check_after_strengthening", {}).get("clauses", [])),
+                         meta.get("detected_by", {}), meta.get("strengthening", "")))
+    if md:
+        print("| seeded change | breaks | what it is | needs, to manifest | repo suite with it | caught by quick check (clauses) | note |")
+        print("|---|---|---|---|---|---|---|")
+        for r in rows:
+            caught = "; ".join("%s %s" % (k, "yes" if v else "**no**") for k, v in sorted(r[7].items()))
+            print("| %s | %s | %s | %s | %s | %s (%s) | %s |" % (r[0], r[1], r[2], r[3], r[4], caught, r[6], r[8][:160]))
+    else:
+        for r in rows:
+            print("%-8s %-4s conf=%-3s %-50s %s" % (r[0], r[1], r[5], r[7], r[6][:80]))
 
 
 if __name__ == "__main__":
@@ -107,4 +117,4 @@ if __name__ == "__main__":
     elif sys.argv[1] == "confirm":
         confirm(sys.argv[2], sys.argv[3])
     elif sys.argv[1] == "table":
-        table()
+        table(md="--md" in sys.argv)
